@@ -51,6 +51,7 @@ def run(chk, repo):
     from .common_rules import stateless_constructs
     chk.attempt(stateless_constructs, chk, repo, "C05-F8")
     chk.attempt(load_rpc, chk, repo)
+    chk.attempt(load_interrupted, chk, repo)
     chk.attempt(chunk_key_agreement, chk, repo, covered_by="load_rpc", rules=("C01-R7",))
     chk.attempt(metadata_offsets, chk, repo, Layouts(repo), covered_by="trace_rpc", rules=("C01-R5",))
     from .c01 import chunk_sizes_spec
@@ -120,6 +121,13 @@ def load_rpc(chk, repo):
     from .load_rules import load_rules
     load_rules(chk, repo, "C06-Q8", ("rows", "axis", "requests"),
                "model loads for every records_per_chunk of the grid: same rows in the same order, one request per touched group of records_per_chunk lines", thorough=chk.tier == "thorough")
+
+
+def load_interrupted(chk, repo):
+    """C06-Q11: under one and the same transient fault every records_per_chunk gives the same pixels or an error (vlib/loadmodel.py with
+    a failing request injected)"""
+    from .load_rules import fault_rules
+    fault_rules(chk, repo, "C06-Q11")
 
 
 def trace_rpc(chk, repo):
